@@ -160,6 +160,7 @@ type event struct {
 	kind string // req | resp | backend | odd
 	lv   string
 	pos  int
+	seen []string // the trace the modifier / the backend saw (value cases)
 }
 
 func (e event) coq() string {
@@ -329,6 +330,8 @@ func behCoq(b string) string {
 		return "BFail"
 	}
 	switch b {
+	case "modify":
+		return "BModify"
 	case "ignored":
 		return "BIgnored"
 	case "nilfactory":
@@ -386,12 +389,15 @@ func factory(name string) func(map[string]interface{}) func(interface{}) (interf
 			case proxy.ResponseWrapper:
 				kind = "resp"
 			}
+			ev := event{kind: kind, lv: st.lv, pos: pos, seen: seenOf(in)}
 			if cs != nil {
-				cs.add(event{kind, st.lv, pos})
+				cs.add(ev)
 			} else if st.log != nil {
-				*st.log = append(*st.log, event{kind, st.lv, pos})
+				*st.log = append(*st.log, ev)
 			}
 			switch b {
+			case "modify":
+				return withTag(in, fmt.Sprintf("%s:%d", st.lv, pos)), nil
 			case "fail":
 				return nil, modErr{st.lv, pos}
 			case "fail-same":
@@ -1054,8 +1060,9 @@ func main() {
 	}
 
 	reuseStreams(cfg, w, r)
+	threadStreams(cfg, w, r)
 
-	w.Close(fmt.Sprintf("failing modifiers are realised in 4 shapes - (nil | input wrapper | modified wrapper | non-wrapper value, err) - in rotation everywhere, plus every sequence up to length 2 (thorough 3) over {request,response} x {ok, 4 shapes} and a corpus; instance reuse: one static / plugin / DefaultFactory proxy serving sequences of 5-7 different inner outcomes and failing-modifier choices (each step a normal case), and the same instances hit by 12 goroutines over 12 distinct inputs (each distinct (input, observation) once); static middleware: %d strategy values (5 names, absent, non-string, unknown/misspelt) x %d inner outcomes (nil / Data nil / empty / non-empty, complete or not, with or without error) x data sets (empty, disjoint, overriding, nested, odd keys) + every non-configuration shape; "+
+	w.Close(fmt.Sprintf("values (CThread): modifiers that append their tag to a trace header of the request / a metadata header of the response, hand their input on, return a non-wrapper or fail; compared: the trace every modifier and the backend saw and the trace of the returned response - every sequence up to length 3 (thorough 4) over {request,response} x {ok,modify,non-wrapper,fail} through both middleware constructors, endpoint x backend lists through DefaultFactory, random, and sequences through one instance; failing modifiers are realised in 4 shapes - (nil | input wrapper | modified wrapper | non-wrapper value, err) - in rotation everywhere, plus every sequence up to length 2 (thorough 3) over {request,response} x {ok, 4 shapes} and a corpus; instance reuse: one static / plugin / DefaultFactory proxy serving sequences of 5-7 different inner outcomes and failing-modifier choices (each step a normal case), and the same instances hit by 12 goroutines over 12 distinct inputs (each distinct (input, observation) once); static middleware: %d strategy values (5 names, absent, non-string, unknown/misspelt) x %d inner outcomes (nil / Data nil / empty / non-empty, complete or not, with or without error) x data sets (empty, disjoint, overriding, nested, odd keys) + every non-configuration shape; "+
 		"plugin middlewares (endpoint and backend constructor): every sequence over {request,response}x{ok,fail} of length <= %d (every failing subset) x %d inner outcomes, every sequence of length <= %d over the 14-letter alphabet (request/response/both x ok/fail/non-wrapper result/nil factory, unknown name, non-string), random lists up to 9 with duplicate names; "+
 		"DefaultFactory stack with one backend: 6 strategies x 6 endpoint x 5 backend modifier lists x 5 backend results + random; nontrivial = static data non-empty / at least one configured name / stack case",
 		len(strategies), len(inners), maxSmall, nIn, maxFull), true)
